@@ -41,6 +41,12 @@ FIELD_PARAMS = {"announce": {"announce"}, "announce-list": {"announce"}, "url-li
 PATHISH = {"path", "content"}
 
 
+# one value as a user writes it on a line of the configuration file: everything that is legal inside a URL or a comment
+REPRESENTATIVE = "http://host/a,b;c?d=e&f=%20+g"
+# a second one that starts like a number and carries what a user may take for a trailing note
+REPRESENTATIVE2 = "18  # 256 KiB"
+
+
 def cfg_table(ctx):
     """{(key, valclass): [(kwarg name, kind)]} by tracing parse_config_file."""
     fn = ctx.prog.func("torrentfile.commands:parse_config_file")
@@ -86,6 +92,15 @@ def cfg_table(ctx):
             return vals if isinstance(e, ast.List) else (tuple(vals) if isinstance(e, ast.Tuple) else set(vals))
         if isinstance(e, ast.Dict) and all(k is not None for k in e.keys):
             return {ev(k, env): ev(v, env) for k, v in zip(e.keys, e.values)}
+        if isinstance(e, ast.Call) and norm(e.func) in ("re.split", "re.sub", "re.findall", "re.match", "re.search", "re.fullmatch") and not e.keywords and all(not isinstance(a, ast.Starred) for a in e.args):
+            import re as _re
+            args = [ev(a, env) for a in e.args]
+            if all(isinstance(a, (str, int)) for a in args):
+                try:
+                    return getattr(_re, norm(e.func).split(".")[1])(*args)
+                except Exception:
+                    raise Unk(norm(e))
+            raise Unk(norm(e))
         if isinstance(e, ast.Call) and isinstance(e.func, ast.Attribute) and not e.keywords:
             base = ev(e.func.value, env)
             args = [ev(a, env) for a in e.args]
@@ -93,6 +108,8 @@ def cfg_table(ctx):
                 return getattr(base, e.func.attr)(*args)
             if isinstance(base, dict) and e.func.attr == "get" and 1 <= len(args) <= 2:
                 return base.get(*args)
+            if type(base).__name__ == "Match" and e.func.attr in ("group", "groups", "start", "end") and all(isinstance(a, (int, str)) for a in args):
+                return getattr(base, e.func.attr)(*args)
             raise Unk(norm(e))
         if isinstance(e, ast.Call) and isinstance(e.func, ast.Name) and e.func.id in ("str", "list", "bool", "len", "tuple") and len(e.args) == 1 and not e.keywords \
                 and e.func.id not in env:
@@ -142,16 +159,16 @@ def cfg_table(ctx):
         if isinstance(v, bool):
             return "bool:%s" % v
         if isinstance(v, list):
-            return "list"
+            # the flag route hands the value over as one token: a list that is not [value] cut or re-joined it
+            return "list" if v == [text] else "list:%r" % (v,)
         if isinstance(v, str):
-            # the representative value handed on as it is written in the file (or a lower-cased / stripped form of it)
-            return "str"
+            return "str" if v == text else "str:%r" % (v,)
         return "?"
 
     table = {}
     for key in sorted({k.lstrip("-") for k in DOC}):
-        for vclass in ("true", "false", "other"):
-            text = {"true": "true", "false": "false", "other": "some value"}[vclass]
+        for vclass in ("true", "false", "other", "other2"):
+            text = {"true": "true", "false": "false", "other": REPRESENTATIVE, "other2": REPRESENTATIVE2}[vclass]
             env = {kv: key, vv: text}
             state = {}
             stores = []
@@ -236,10 +253,10 @@ def run(ctx):
                    "keyword %r (flag %s) is not a named parameter of MetaFile.__init__: it is swallowed by **_ and the option is ignored" % (row.dest, flag),
                    "parameter " + str(row.dest))
         key = flag.lstrip("-")
-        classes = ("true", "false") if kind == "bool" else ("other",)
+        classes = ("true", "false") if kind == "bool" else ("other", "other2")
         for vclass in classes:
             st = table.get((key, vclass))
-            label = "configuration key %s = %s" % (key, {"true": "true", "false": "false", "other": "<value>"}[vclass])
+            label = "configuration key %s = %s" % (key, {"true": "true", "false": "false", "other": "<value>", "other2": "<value #2>"}[vclass])
             if st is None or st[0] != "ok":
                 ctx.undecided("C20.1", cfg_fn, "%s: chain not understood (%s)" % (label, st[1] if st else "no row"), "config key " + key + "=" + vclass)
                 continue
@@ -252,7 +269,12 @@ def run(ctx):
             k = final[dest][0]
             want = {"list": "list", "str": "str", "bool": "bool:True" if vclass == "true" else "bool:False"}[kind]
             extra = [n for n in final if n != dest and n not in params]
-            if k != want:
+            if k == "?":
+                ctx.undecided("C20.1", cfg_fn, "%s: what is passed as %s could not be evaluated" % (label, dest), final[dest][1])
+            elif k.split(":")[0] == want.split(":")[0] and ":" in k and kind != "bool":
+                ctx.violated("C20.1", cfg_fn, "%s: the value `%s` written in the file reaches %s as %s; the flag passes it as one unchanged value - the same value means something else in the configuration file" % (
+                    label, REPRESENTATIVE if vclass == "other" else REPRESENTATIVE2, dest, k.split(":", 1)[1]), final[dest][1])
+            elif k != want:
                 ctx.violated("C20.1", cfg_fn, "%s passes %s as %s; the flag passes %s" % (label, dest, k, want.split(":")[0]), final[dest][1])
             else:
                 ctx.holds("C20.1", cfg_fn, "%s -> keyword %s (%s), same as flag %s" % (label, dest, k.split(":")[0], flag), "config key " + key + "=" + vclass)
@@ -274,12 +296,30 @@ def run(ctx):
         for n in own_nodes(F.node):
             if isinstance(n, ast.Assign) and len(n.targets) == 1 and isinstance(n.targets[0], ast.Subscript):
                 stores_in.append((F, callsite, n))
+    from .argtable import loop_instances
+    expanded = []
     for F, callsite, n in stores_in:
         t = n.targets[0]
         k = const_str(t.slice)
+        if k is not None:
+            expanded.append((F, callsite, n, k, n.value))
+        elif isinstance(t.slice, ast.Name):
+            # target[key] = value inside `for ..., key, value in <literal table>`: one store per row of the table
+            for m in (loop_instances(ctx, F, n) or []):
+                kk = const_str(m[t.slice.id]) if t.slice.id in m else None
+                if kk is not None:
+                    expanded.append((F, callsite, n, kk, m.get(n.value.id, n.value) if isinstance(n.value, ast.Name) else n.value, m))
+    for F, callsite, n, k, value_expr, *row in expanded:
+        t = n.targets[0]
         if k is None or k not in FIELD_PARAMS:
             continue
         base = norm(t.value)
+        if row and isinstance(t.value, ast.Name):
+            # target = <info dictionary> if flag else <top level>, with the flag a column of the table
+            bl = ctx.res.bindings(F).get(t.value.id, [])
+            if len(bl) == 1 and bl[0][0] == "value" and isinstance(bl[0][1], ast.IfExp) and isinstance(bl[0][1].test, ast.Name) \
+                    and isinstance(row[0].get(bl[0][1].test.id), ast.Constant):
+                base = norm(bl[0][1].body if row[0][bl[0][1].test.id].value else bl[0][1].orelse)
         if F is not init and isinstance(t.value, ast.Name) and callsite is not None:
             # the dictionary is a parameter of the helper: read the argument at the call in the constructor
             bound = ctx.res.bind_args(F, callsite, F.cls is not None and not F.is_static)
@@ -289,9 +329,16 @@ def run(ctx):
         in_info = base.endswith("['info']")
         expected_info = k in ("comment", "private", "source", "piece length")
         used = set()
-        for x in walk_terms(flow.term(n.value, F)):
+        for x in walk_terms(flow.term(value_expr, F)):
             if x[0] == "param" and x[1] == init.qual:
                 used.add(x[2])
+        # `1 if private else None`: the option decides through the test of a conditional expression
+        for ie in [x for x in ast.walk(value_expr) if isinstance(x, ast.IfExp)]:
+            for nm in ast.walk(ie.test):
+                if isinstance(nm, ast.Name):
+                    for y in walk_terms(flow.term(nm, F)):
+                        if y[0] == "param" and y[1] == init.qual:
+                            used.add(y[2])
         node = C.stmt_node(ctx, F, n)
         for b, lab in g.control_deps(node, normal_only=True):
             te = C.test_expr(b)
@@ -318,7 +365,7 @@ def run(ctx):
             problems.append("option(s) %s leak into field %r" % (sorted(used_opts - want), k))
         if want - used_opts:
             problems.append("field %r does not depend on its own option %s" % (k, sorted(want)))
-        if problems and travels_in_container(flow.term(n.value, F), lambda y: y[0] == "param" and y[1] == init.qual and y[2] in option_params):
+        if problems and travels_in_container(flow.term(value_expr, F), lambda y: y[0] == "param" and y[1] == init.qual and y[2] in option_params):
             # several option values travel side by side through one container (a table, a tuple that is unpacked through a
             # starred element ...): which of them reaches this field is not separated by the origin terms
             ctx.undecided("C20.3", F, "field %r: the option values travel through a container together and could not be told apart (%s)" % (k, "; ".join(problems)), n)
@@ -489,9 +536,16 @@ def post_recovery_values(ctx, init, rows, flow):
         key = field_of.get(dest)
         if key is None:
             continue
-        stores = [n for n in own_nodes(init.node) if isinstance(n, ast.Assign) and len(n.targets) == 1 and isinstance(n.targets[0], ast.Subscript) and const_str(n.targets[0].slice) == key]
-        for st in stores:
-            t = flow.term(st.value, init)
+        from .argtable import loop_instances
+        stores = [(n, n.value) for n in own_nodes(init.node) if isinstance(n, ast.Assign) and len(n.targets) == 1 and isinstance(n.targets[0], ast.Subscript) and const_str(n.targets[0].slice) == key]
+        # target[key] = value inside a loop over a literal table: the row whose key column is this field
+        for n in own_nodes(init.node):
+            if isinstance(n, ast.Assign) and len(n.targets) == 1 and isinstance(n.targets[0], ast.Subscript) and isinstance(n.targets[0].slice, ast.Name):
+                for m in (loop_instances(ctx, init, n) or []):
+                    if n.targets[0].slice.id in m and const_str(m[n.targets[0].slice.id]) == key:
+                        stores.append((n, m.get(n.value.id, n.value) if isinstance(n.value, ast.Name) else n.value))
+        for st, vexpr in stores:
+            t = flow.term(vexpr, init)
             # some alternative of the stored value is a slice of (something that holds) the option: the list after the recovery
             trimmed = any(x[0] == "sub" and any(i[0] == "op" and i[1] == "slice" for i in x[2]) and any(b[0] == "param" and b[2] == dest for b in walk_terms(x[1])) for x in walk_terms(t))
             ctx.decide("C20.4", init, trimmed, "field %r is stored from the list as it stands after the recovery of a swallowed content path" % key,
